@@ -555,6 +555,13 @@ func TestGrid(t *testing.T) {
 	vk.CountConstructed(evals, nontriv, "grid")
 	vk.AddSample(map[string]any{"grid": fmt.Sprintf("%d encodings: all pairs for Cmp, x %d plain strings for CmpUpto/StrCmpUpto", len(rs), len(plain)),
 		"example": map[string]any{"x": "New(80ff, 3, 11)", "encoding": fmt.Sprintf("%x", bitstr.New("\x80\xff", 3, 11))}})
+	vk.MarkExhaustive("all strings of length <= 2 over {00,01,7f,80,ff} x from in {0,3,8,11} x all to: all pairs (Cmp), all plain strings of length <= 3 (CmpUpto/StrCmpUpto)")
+}
+
+// TestLast runs at the very end of the process: huge inputs (the maximum bitmap / string) and the regression cases of that size come last, so that
+// what they leave behind in the library cannot mask anything the ordinary cases would have met.
+func TestLast(t *testing.T) {
+	vk.SetPhase("last")
 	// the maximum string as source: 2^28 bytes (8*len = 2^31 fits no int32), and a few bytes less
 	for _, cut := range []int{0, 1, 3} {
 		L8 := int64(8 * (gen.MaxStrLen - cut))
@@ -571,5 +578,5 @@ func TestGrid(t *testing.T) {
 			checker.Run(t, Case{Op: "maxnew", X: Range{From: int32(r[0]), To: int32(r[1])}, Cut: cut, Class: "grid-maximum-string"})
 		}
 	}
-	vk.MarkExhaustive("all strings of length <= 2 over {00,01,7f,80,ff} x from in {0,3,8,11} x all to: all pairs (Cmp), all plain strings of length <= 3 (CmpUpto/StrCmpUpto)")
+	checker.RegressLast(t)
 }
